@@ -1,4 +1,253 @@
 import Dasp.Model.Ring
-/-! Helper lemmas for C06 (ring-buffer window arithmetic). -/
+/-!
+# Helper lemmas for C06: arithmetic of the live window of a ring buffer
+
+`window d s n` (Model/Ring.lean) lists `d[(s+0) % c], …, d[(s+n-1) % c]`, `c = d.length`.
+Everything the property theorems need about wrap-around is proved here once:
+slot injectivity, advancing the start (`window_succ`), writing inside / behind / outside
+the window, the split into the code's two slices, and writes through `&mut` positions.
+Core Lean only (no Mathlib needed).
+-/
 namespace Dasp.Ring
+variable {α : Type} [Inhabited α]
+
+theorem add_mod_wrap {s i c : Nat} (hs : s < c) (hi : i ≤ c) :
+    (s + i) % c = if s + i < c then s + i else s + i - c := by
+  split
+  · exact Nat.mod_eq_of_lt ‹_›
+  · rw [Nat.mod_eq_sub_mod (by omega)]; exact Nat.mod_eq_of_lt (by omega)
+
+theorem getBang_set (d : List α) (p k : Nat) (x : α) :
+    (d.set p x)[k]! = if p = k ∧ k < d.length then x else d[k]! := by
+  by_cases h : p = k
+  · subst h
+    by_cases h2 : p < d.length
+    · simp [h2]
+    · simp [h2]
+  · simp [h]
+
+@[simp] theorem window_length (d : List α) (s n : Nat) : (window d s n).length = n := by
+  simp [window]
+
+theorem window_getElem? (d : List α) (s n i : Nat) :
+    (window d s n)[i]? = if i < n then some d[(s + i) % d.length]! else none := by
+  unfold window
+  by_cases h : i < n <;> simp [h]
+
+theorem window_getElem (d : List α) (s n i : Nat) (h : i < (window d s n).length) :
+    (window d s n)[i] = d[(s + i) % d.length]! := by
+  simp [window]
+
+/-- the slot of live element `i` is in range -/
+theorem slot_lt {s i c : Nat} (hs : s < c) : (s + i) % c < c := Nat.mod_lt _ (by omega)
+
+/-- distinct live positions occupy distinct slots -/
+theorem slot_inj {s i j c : Nat} (hs : s < c) (hi : i < c) (hj : j < c)
+    (h : (s + i) % c = (s + j) % c) : i = j := by
+  rw [add_mod_wrap hs (by omega), add_mod_wrap hs (by omega)] at h
+  split at h <;> split at h <;> omega
+
+/-- advancing the start by one slot (with wrap) drops the oldest element -/
+theorem window_succ (d : List α) (s n : Nat) (hs : s < d.length) :
+    window d s (n + 1) = d[s]! :: window d (if s + 1 ≥ d.length then 0 else s + 1) n := by
+  apply List.ext_getElem
+  · simp
+  · intro i h1 h2
+    rw [window_getElem]
+    cases i with
+    | zero => simp [Nat.mod_eq_of_lt hs]
+    | succ i =>
+      simp only [List.getElem_cons_succ]
+      rw [window_getElem]
+      congr 1
+      split
+      · have e : s + (i + 1) = d.length + i := by omega
+        rw [e, Nat.add_mod_left, Nat.zero_add]
+      · congr 1; omega
+
+/-- a write to a slot outside the window does not change it -/
+theorem window_set_notin (d : List α) (s n p : Nat) (x : α)
+    (h : ∀ i, i < n → (s + i) % d.length ≠ p) : window (d.set p x) s n = window d s n := by
+  apply List.ext_getElem
+  · simp
+  · intro i h1 h2
+    simp only [window_length] at h1
+    rw [window_getElem, window_getElem, List.length_set, getBang_set]
+    have := h i h1
+    simp [Ne.symm this]
+
+/-- a write to the slot of live element `i` is a write at position `i` of the window -/
+theorem window_set_at (d : List α) (s n i : Nat) (x : α) (hs : s < d.length) (hn : n ≤ d.length)
+    (hi : i < n) : window (d.set ((s + i) % d.length) x) s n = (window d s n).set i x := by
+  apply List.ext_getElem
+  · simp
+  · intro j h1 h2
+    simp only [window_length] at h1
+    rw [window_getElem, List.length_set, getBang_set, List.getElem_set, window_getElem]
+    by_cases hij : i = j
+    · subst hij; simp [slot_lt hs]
+    · have : (s + i) % d.length ≠ (s + j) % d.length := fun e => hij (slot_inj hs (by omega) (by omega) e)
+      simp [this, hij]
+
+/-- writing the slot just behind the window appends -/
+theorem window_push (d : List α) (s n : Nat) (x : α) (hs : s < d.length) (hn : n < d.length) :
+    window (d.set ((s + n) % d.length) x) s (n + 1) = window d s n ++ [x] := by
+  apply List.ext_getElem
+  · simp
+  · intro j h1 h2
+    simp only [window_length] at h1
+    rw [window_getElem, List.length_set, getBang_set]
+    by_cases hj : j = n
+    · subst hj; simp [slot_lt hs]
+    · have hjn : j < n := by omega
+      have : (s + n) % d.length ≠ (s + j) % d.length := fun e => hj (slot_inj hs (by omega) (by omega) e).symm
+      rw [List.getElem_append_left (by simpa using hjn), window_getElem]
+      simp [this]
+
+
+theorem getBang_some (d : List α) (k : Nat) (h : k < d.length) : some d[k]! = d[k]? := by
+  simp [h]
+
+/-- next start slot, written once -/
+def nextSlot (c s : Nat) : Nat := if s + 1 ≥ c then 0 else s + 1
+
+/-- overwriting the oldest slot of a full ring and advancing the start = drop oldest, append -/
+theorem window_rotate_push (d : List α) (s : Nat) (x : α) (hs : s < d.length) :
+    window (d.set s x) (nextSlot d.length s) d.length = (window d s d.length).tail ++ [x] := by
+  obtain ⟨m, hm⟩ : ∃ m, d.length = m + 1 := ⟨d.length - 1, by omega⟩
+  have hslot : (nextSlot d.length s + m) % d.length = s := by
+    unfold nextSlot
+    split
+    · rw [Nat.zero_add]; rw [Nat.mod_eq_of_lt (by omega)]; omega
+    · have e : s + 1 + m = d.length + s := by omega
+      rw [e, Nat.add_mod_left, Nat.mod_eq_of_lt hs]
+  have hns : nextSlot d.length s < d.length := by unfold nextSlot; split <;> omega
+  have h1 := window_push d (nextSlot d.length s) m x hns (by omega)
+  rw [hslot] at h1
+  have h2 := window_succ d s m hs
+  conv => lhs; rw [show window (d.set s x) (nextSlot d.length s) d.length
+      = window (d.set s x) (nextSlot d.length s) (m + 1) by rw [hm]]
+  rw [h1]
+  conv => rhs; rw [show window d s d.length = window d s (m + 1) by rw [hm]]
+  rw [h2]
+  simp [nextSlot]
+
+theorem window_head? (d : List α) (s n : Nat) (hs : s < d.length) (hn : 0 < n) :
+    (window d s n).head? = some d[s]! := by
+  obtain ⟨m, rfl⟩ : ∃ m, n = m + 1 := ⟨n - 1, by omega⟩
+  rw [window_succ d s m hs]; rfl
+
+/-- the window as the code's two slices: wrapped case -/
+theorem window_split_wrap (d : List α) (s n : Nat) (hs : s < d.length) (hn : n ≤ d.length)
+    (h : d.length - s ≤ n) :
+    window d s n = d.drop s ++ (d.take s).take (n - (d.length - s)) := by
+  apply List.ext_getElem?
+  intro i
+  rw [window_getElem?, List.getElem?_append, List.getElem?_drop, List.getElem?_take, List.getElem?_take]
+  simp only [List.length_drop]
+  by_cases h1 : i < d.length - s
+  · have : i < n := by omega
+    simp only [this, h1, if_true]
+    rw [Nat.mod_eq_of_lt (by omega)]
+    exact getBang_some d _ (by omega)
+  · simp only [h1, if_false]
+    by_cases h2 : i < n
+    · have e : (s + i) % d.length = i - (d.length - s) := by
+        rw [add_mod_wrap hs (by omega)]; split <;> omega
+      have h3 : i - (d.length - s) < n - (d.length - s) := by omega
+      have h4 : i - (d.length - s) < s := by omega
+      simp only [h2, h3, h4, if_true, e]
+      exact getBang_some d _ (by omega)
+    · have h3 : ¬ (i - (d.length - s) < n - (d.length - s)) := by omega
+      simp [h2, h3]
+
+/-- the window as the code's two slices: contiguous case -/
+theorem window_split_contig (d : List α) (s n : Nat) (h : n < d.length - s) :
+    window d s n = (d.drop s).take n := by
+  apply List.ext_getElem?
+  intro i
+  rw [window_getElem?, List.getElem?_take, List.getElem?_drop]
+  by_cases h2 : i < n
+  · simp only [h2, if_true]
+    rw [Nat.mod_eq_of_lt (by omega)]
+    exact getBang_some d _ (by omega)
+  · simp [h2]
+
+/-- abstract counterpart of `writeAt`: overwrite positions k, k+1, … of a list -/
+def overwrite (l : List α) : Nat → List α → List α
+  | _, [] => l
+  | k, x :: xs => overwrite (l.set k x) (k + 1) xs
+
+omit [Inhabited α] in
+@[simp] theorem overwrite_length (l : List α) (k : Nat) (xs : List α) :
+    (overwrite l k xs).length = l.length := by
+  induction xs generalizing l k with
+  | nil => rfl
+  | cons x xs ih => simp [overwrite, ih]
+
+omit [Inhabited α] in
+theorem overwrite_oob (l : List α) (k : Nat) (xs : List α) (h : l.length ≤ k) : overwrite l k xs = l := by
+  induction xs generalizing l k with
+  | nil => rfl
+  | cons x xs ih =>
+    simp only [overwrite]
+    rw [ih _ _ (by simp; omega)]
+    exact List.set_eq_of_length_le h
+
+omit [Inhabited α] in
+theorem overwrite_getElem? (l : List α) (k : Nat) (xs : List α) (j : Nat) :
+    (overwrite l k xs)[j]? = if k ≤ j ∧ j < k + xs.length ∧ j < l.length then xs[j - k]? else l[j]? := by
+  induction xs generalizing l k with
+  | nil => simp [overwrite]; intros; omega
+  | cons x xs ih =>
+    simp only [overwrite, ih, List.length_set, List.length_cons, List.getElem?_set]
+    by_cases h1 : k = j
+    · subst h1
+      by_cases h2 : k < l.length <;> simp [h2] <;> (intros; omega)
+    · by_cases h2 : k + 1 ≤ j ∧ j < k + 1 + xs.length ∧ j < l.length
+      · have h3 : k ≤ j ∧ j < k + (xs.length + 1) ∧ j < l.length := by omega
+        have e : j - k = (j - (k + 1)) + 1 := by omega
+        simp only [h2, h3, and_self, if_true, h1, if_false, e, List.getElem?_cons_succ]
+      · have h3 : ¬ (k ≤ j ∧ j < k + (xs.length + 1) ∧ j < l.length) := by omega
+        simp only [h2, h3, if_false, h1]
+
+/-- overwriting from position 0: the prefix is replaced by `xs`, the rest is kept -/
+theorem overwrite_zero (l xs : List α) : overwrite l 0 xs = xs.take l.length ++ l.drop xs.length := by
+  apply List.ext_getElem?
+  intro j
+  rw [overwrite_getElem?, List.getElem?_append, List.getElem?_take, List.getElem?_drop]
+  simp only [List.length_take, Nat.zero_le, true_and, Nat.zero_add, Nat.sub_zero]
+  by_cases h1 : j < xs.length <;> by_cases h2 : j < l.length
+  · have : j < min l.length xs.length := by omega
+    simp [h1, h2, this]
+  · have : ¬ j < min l.length xs.length := by omega
+    have h3 : l.length ≤ xs.length + (j - min l.length xs.length) := by omega
+    simp [h1, h2, this, List.getElem?_eq_none h3]
+  · have : ¬ j < min l.length xs.length := by omega
+    have e : xs.length + (j - min l.length xs.length) = j := by omega
+    simp [h1, this, e]
+  · have : ¬ j < min l.length xs.length := by omega
+    have h3 : l.length ≤ xs.length + (j - min l.length xs.length) := by omega
+    simp [h1, this, List.getElem?_eq_none h3, List.getElem?_eq_none (Nat.le_of_not_lt h2)]
+
+/-- writes through the `&mut` references of live positions k, …, n-1 = overwrite of the window -/
+theorem window_writeAt (d : List α) (s n m k : Nat) (xs : List α) (hs : s < d.length)
+    (hn : n ≤ d.length) (hk : k + m = n) :
+    window (writeAt d ((List.range' k m).map fun i => (s + i) % d.length) xs) s n
+      = overwrite (window d s n) k xs := by
+  induction m generalizing d k xs with
+  | zero =>
+    simp only [List.range'_zero, List.map_nil]
+    rw [overwrite_oob _ _ _ (by simp; omega)]
+    cases xs <;> rfl
+  | succ m ih =>
+    cases xs with
+    | nil => simp [writeAt, overwrite]
+    | cons x xs =>
+      simp only [List.range'_succ, List.map_cons, writeAt, overwrite]
+      have hl : (d.set ((s + k) % d.length) x).length = d.length := by simp
+      have := ih (d.set ((s + k) % d.length) x) (k + 1) xs (by simpa using hs) (by simpa using hn) (by omega)
+      rw [hl] at this
+      rw [this, window_set_at d s n k x hs hn (by omega)]
+
 end Dasp.Ring
